@@ -18,6 +18,7 @@ import (
 	"fmt"
 	"go/ast"
 	"go/token"
+	"sort"
 	"strings"
 )
 
@@ -226,14 +227,37 @@ func genC16(c *Ctx) {
 	}
 	_ = token.NoPos
 
+	// ---- every Calculator() builds its mutable state itself
+	shares, mutable, calcTypes := calculatorShares(c, ap)
+
+	// ---- statement order of collectSingle and AllIterator.Next
+	cp := c.ParseDir("search/collector")
+	csOrder := collectSingleOrder(c, cp)
+	allOrder, finishCalls, finishInEnd, endMarksDone := allNextFacts(c, cp)
+
 	b := func(v bool) string {
 		if v {
 			return "true"
 		}
 		return "false"
 	}
-	src := fmt.Sprintf(strings.ReplaceAll(`/-! GENERATED by /verif/go/extract (c16.go) from search/search.go and search/aggregations/{range,range_date,terms}.go
-of the repository under check. Do not edit: §./check C16§ rewrites this file from the working tree on every run. -/
+	strList := func(xs []string) string {
+		q := make([]string, len(xs))
+		for i, x := range xs {
+			q[i] = LeanStr(x)
+		}
+		return "[" + strings.Join(q, ", ") + "]"
+	}
+	tripleList := func(xs [][3]string) string {
+		q := make([]string, len(xs))
+		for i, x := range xs {
+			q[i] = "(" + LeanStr(x[0]) + ", " + LeanStr(x[1]) + ", " + LeanStr(x[2]) + ")"
+		}
+		return "[" + strings.Join(q, ",\n  ") + "]"
+	}
+	src := fmt.Sprintf(strings.ReplaceAll(`/-! GENERATED by /verif/go/extract (c16.go) from search/search.go, search/aggregations/*.go and
+search/collector/{topn,all}.go of the repository under check.
+Do not edit: §./check C16§ rewrites this file from the working tree on every run. -/
 namespace BlugeGen.C16
 
 /-- the list of needed fields is de-duplicated before the document value reader is built
@@ -246,11 +270,352 @@ def rangeFieldsNested : Bool := %s
 /-- §TermsAggregation.Fields§ reports the nested aggregations' fields (assumed by the model; the extractor refuses otherwise) -/
 def termsFieldsNested : Bool := true
 
+/-- the aggregation definition types of search/aggregations that have a §Calculator()§ method -/
+def calculatorTypes : List String := %s
+
+/-- (definition type, receiver field, declared type of the field) for every field of the DEFINITION that
+§Calculator()§ hands to the calculator it returns -/
+def calculatorShares : List (String × String × String) :=
+  %s
+
+/-- those of them whose type can hold mutable state (anything that is not a value source, a basic value, a
+function, the nested aggregation definitions or the list of ranges): a calculator built from such a field shares
+state with every other calculator of the same definition -/
+def sharedMutable : List (String × String × String) :=
+  %s
+
+/-- top-level statements of §TopNCollector.collectSingle§, in source order (only the ones that matter) -/
+def collectSingleOrder : List String := %s
+
+/-- top-level statements of §AllIterator.Next§, in source order (only the ones that matter) -/
+def allNextOrder : List String := %s
+
+/-- number of §Finish()§ calls in §AllIterator.Next§ -/
+def allNextFinishCalls : Nat := %d
+
+/-- that call sits in the §next == nil§ branch -/
+def allNextFinishInEndBranch : Bool := %s
+
+/-- … which also marks the iterator done (§doneCleanup()§ / §a.done = true§), and §Next§ starts with the done guard -/
+def allNextEndMarksDone : Bool := %s
+
 end BlugeGen.C16
-`, "§", "`"), argSrc, b(dedup), b(rangeNested))
+`, "§", "`"), argSrc, b(dedup), b(rangeNested), strList(calcTypes), tripleList(shares), tripleList(mutable),
+		strList(csOrder), strList(allOrder), finishCalls, b(finishInEnd), b(endMarksDone))
 	c.WriteLean("C16", src)
 	c.Summary["dedupNeeded"] = dedup
 	c.Summary["rangeFieldsNested"] = rangeNested
 	c.Summary["termsFieldsNested"] = true
 	c.Summary["docValueReaderArgument"] = argSrc
+	c.Summary["calculatorTypes"] = calcTypes
+	c.Summary["sharedMutable"] = len(mutable)
+	c.Summary["collectSingleOrder"] = csOrder
+	c.Summary["allNextOrder"] = allOrder
+}
+
+// ---------------------------------------------------------------------------------------------------------
+
+// structFields returns field name -> declared type (source text) of a struct type of the package.
+func structFields(p *Pkg, typ string) map[string]string {
+	out := map[string]string{}
+	for _, f := range p.Files {
+		for _, d := range f.Decls {
+			gd, ok := d.(*ast.GenDecl)
+			if !ok {
+				continue
+			}
+			for _, sp := range gd.Specs {
+				ts, ok := sp.(*ast.TypeSpec)
+				if !ok || ts.Name.Name != typ {
+					continue
+				}
+				st, ok := ts.Type.(*ast.StructType)
+				if !ok {
+					continue
+				}
+				for _, fl := range st.Fields.List {
+					for _, n := range fl.Names {
+						out[n.Name] = p.Src(fl.Type)
+					}
+				}
+			}
+		}
+	}
+	return out
+}
+
+// immutableFieldType: value sources, basic values, functions, the nested aggregation DEFINITIONS and the ranges.
+func immutableFieldType(t string) bool {
+	switch t {
+	case "int", "int64", "uint", "uint64", "float64", "float32", "bool", "string",
+		"map[string]search.Aggregation", "[]*NumericRange", "[]*DateRange":
+		return true
+	}
+	if strings.HasPrefix(t, "func(") || strings.HasSuffix(t, "Func") {
+		return true
+	}
+	if strings.HasPrefix(t, "search.") && strings.HasSuffix(t, "Source") {
+		return true
+	}
+	return false
+}
+
+// calculatorShares inspects every `func (x *T) Calculator() search.Calculator` of search/aggregations: which fields
+// of the definition receiver flow into the returned calculator (as a composite-literal field value, or assigned
+// to a field of the calculator afterwards). Values produced by calls to other packages / make / literals are
+// fresh. A method call on the receiver is treated as shared state of unknown type.
+func calculatorShares(c *Ctx, p *Pkg) (shares, mutable [][3]string, types []string) {
+	var decls []*ast.FuncDecl
+	for _, f := range p.Files {
+		for _, d := range f.Decls {
+			fd, ok := d.(*ast.FuncDecl)
+			if ok && fd.Name.Name == "Calculator" && fd.Recv != nil && len(fd.Recv.List) == 1 && fd.Body != nil {
+				decls = append(decls, fd)
+			}
+		}
+	}
+	recvType := func(fd *ast.FuncDecl) string {
+		t := fd.Recv.List[0].Type
+		if s, ok := t.(*ast.StarExpr); ok {
+			t = s.X
+		}
+		if id, ok := t.(*ast.Ident); ok {
+			return id.Name
+		}
+		return ""
+	}
+	sort.Slice(decls, func(i, j int) bool { return recvType(decls[i]) < recvType(decls[j]) })
+	shares, mutable = [][3]string{}, [][3]string{}
+	for _, fd := range decls {
+		typ := recvType(fd)
+		if typ == "" {
+			c.Refuse("search/aggregations: a Calculator() method has an unusual receiver:\n%s", p.Src(fd))
+		}
+		types = append(types, typ)
+		recv := "\x00"
+		if len(fd.Recv.List[0].Names) == 1 {
+			recv = fd.Recv.List[0].Names[0].Name
+		}
+		fields := structFields(p, typ)
+		add := func(field, ft string, mut bool) {
+			t := [3]string{typ, field, ft}
+			shares = append(shares, t)
+			if mut {
+				mutable = append(mutable, t)
+			}
+		}
+		note := func(e ast.Expr) {
+			switch x := e.(type) {
+			case *ast.SelectorExpr:
+				if id, ok := x.X.(*ast.Ident); ok && id.Name == recv {
+					ft, ok := fields[x.Sel.Name]
+					if !ok {
+						ft = "?"
+					}
+					add(x.Sel.Name, ft, !immutableFieldType(ft))
+				}
+			case *ast.Ident:
+				if x.Name == recv {
+					add("(the definition itself)", "*"+typ, true)
+				}
+			case *ast.CallExpr:
+				if se, ok := x.Fun.(*ast.SelectorExpr); ok {
+					if id, ok := se.X.(*ast.Ident); ok && id.Name == recv {
+						add(se.Sel.Name+"()", "call on the definition", true)
+					}
+				}
+			case *ast.UnaryExpr:
+				if x.Op == token.AND {
+					if se, ok := x.X.(*ast.SelectorExpr); ok {
+						if id, ok := se.X.(*ast.Ident); ok && id.Name == recv {
+							add("&"+se.Sel.Name, "address of a definition field", true)
+						}
+					}
+				}
+			}
+		}
+		ast.Inspect(fd.Body, func(n ast.Node) bool {
+			switch x := n.(type) {
+			case *ast.CompositeLit:
+				if strings.HasSuffix(p.Src(x.Type), "Calculator") {
+					for _, el := range x.Elts {
+						if kv, ok := el.(*ast.KeyValueExpr); ok {
+							note(kv.Value)
+						} else {
+							note(el)
+						}
+					}
+				}
+			case *ast.AssignStmt:
+				// rv.field = <value>   /   rv.field, _ = <call>
+				for i, l := range x.Lhs {
+					se, ok := l.(*ast.SelectorExpr)
+					if !ok {
+						continue
+					}
+					if id, ok := se.X.(*ast.Ident); ok && id.Name != recv {
+						if i < len(x.Rhs) {
+							note(x.Rhs[i])
+						} else if len(x.Rhs) == 1 {
+							note(x.Rhs[0])
+						}
+					}
+				}
+			case *ast.ReturnStmt:
+				// `return c.calc` / `return c` : the definition hands out something it keeps
+				for _, r := range x.Results {
+					switch r.(type) {
+					case *ast.SelectorExpr, *ast.Ident:
+						note(r)
+					}
+				}
+			}
+			return true
+		})
+	}
+	if len(types) == 0 {
+		c.Refuse("search/aggregations: no Calculator() method found")
+	}
+	return
+}
+
+func containsIdentSel(n ast.Node, name string) bool {
+	found := false
+	ast.Inspect(n, func(m ast.Node) bool {
+		switch x := m.(type) {
+		case *ast.SelectorExpr:
+			if x.Sel.Name == name {
+				found = true
+			}
+		case *ast.Ident:
+			if x.Name == name {
+				found = true
+			}
+		}
+		return true
+	})
+	return found
+}
+
+func containsCall(n ast.Node, method string) int {
+	k := 0
+	ast.Inspect(n, func(m ast.Node) bool {
+		if ce, ok := m.(*ast.CallExpr); ok && c16Sel(ce.Fun) == method {
+			k++
+		}
+		return true
+	})
+	return k
+}
+
+func containsReturn(n ast.Node) bool {
+	found := false
+	ast.Inspect(n, func(m ast.Node) bool {
+		if _, ok := m.(*ast.ReturnStmt); ok {
+			found = true
+		}
+		return true
+	})
+	return found
+}
+
+// collectSingleOrder labels the top-level statements of TopNCollector.collectSingle.
+func collectSingleOrder(c *Ctx, p *Pkg) []string {
+	fd := p.Func("TopNCollector.collectSingle")
+	if fd == nil || fd.Body == nil {
+		c.Refuse("search/collector/topn.go: method TopNCollector.collectSingle not found")
+	}
+	out := []string{}
+	for _, st := range fd.Body.List {
+		switch x := st.(type) {
+		case *ast.ExprStmt:
+			switch {
+			case containsCall(x, "Compute") > 0:
+				out = append(out, "sort")
+			case containsCall(x, "Consume") > 0:
+				out = append(out, "consume")
+			case containsCall(x, "AddNotExceedingSize") > 0:
+				out = append(out, "store")
+			}
+		case *ast.AssignStmt:
+			switch {
+			case containsCall(x, "AddNotExceedingSize") > 0:
+				out = append(out, "store")
+			case containsCall(x, "LoadDocumentValues") > 0:
+				out = append(out, "load")
+			case containsCall(x, "Consume") > 0:
+				out = append(out, "consume")
+			}
+		case *ast.IfStmt:
+			switch {
+			case containsCall(x, "Consume") > 0:
+				out = append(out, "consume-conditional")
+			case containsCall(x, "LoadDocumentValues") > 0:
+				out = append(out, "load")
+			case containsCall(x, "AddNotExceedingSize") > 0:
+				out = append(out, "store")
+			case containsIdentSel(x.Cond, "searchAfter") && containsReturn(x.Body):
+				out = append(out, "after")
+			case containsIdentSel(x.Cond, "lowestMatchOutsideResults") && containsReturn(x.Body):
+				out = append(out, "shortcut")
+			}
+		default:
+			if containsCall(st, "Consume") > 0 {
+				out = append(out, "consume-conditional")
+			}
+		}
+	}
+	return out
+}
+
+// allNextFacts labels the top-level statements of AllIterator.Next and locates the Finish call.
+func allNextFacts(c *Ctx, p *Pkg) (order []string, finishCalls int, finishInEnd, endMarksDone bool) {
+	fd := p.Func("AllIterator.Next")
+	if fd == nil || fd.Body == nil {
+		c.Refuse("search/collector/all.go: method AllIterator.Next not found")
+	}
+	order = []string{}
+	finishCalls = containsCall(fd.Body, "Finish")
+	doneGuard := false
+	for i, st := range fd.Body.List {
+		switch x := st.(type) {
+		case *ast.IfStmt:
+			switch {
+			case i == 0 && containsIdentSel(x.Cond, "done") && containsReturn(x.Body):
+				order = append(order, "done-guard")
+				doneGuard = true
+			case strings.Contains(p.Src(x.Cond), "== nil") && containsIdentSel(x.Cond, "next"):
+				order = append(order, "end-of-matches")
+				if containsCall(x.Body, "Finish") > 0 {
+					finishInEnd = true
+				}
+				if containsCall(x.Body, "doneCleanup") > 0 || containsIdentSel(x.Body, "done") {
+					endMarksDone = true
+				}
+			case containsCall(x, "Consume") > 0:
+				order = append(order, "consume-conditional")
+			case containsCall(x, "LoadDocumentValues") > 0:
+				order = append(order, "load")
+			}
+		case *ast.AssignStmt:
+			switch {
+			case containsCall(x, "LoadDocumentValues") > 0:
+				order = append(order, "load")
+			case containsCall(x, "Consume") > 0:
+				order = append(order, "consume")
+			case containsCall(x, "Next") > 0:
+				order = append(order, "next")
+			}
+		case *ast.ExprStmt:
+			if containsCall(x, "Consume") > 0 {
+				order = append(order, "consume")
+			}
+		case *ast.ReturnStmt:
+			if len(x.Results) == 2 && p.Src(x.Results[0]) == "next" {
+				order = append(order, "return-match")
+			}
+		}
+	}
+	endMarksDone = endMarksDone && doneGuard
+	return
 }
